@@ -81,7 +81,8 @@ def run(ctx, groups: bool):
         rec = {"platform": plat, "bottom": bottom, "top": top, "bottom_text": sb["text"], "top_text": st["text"],
                "sb": sb, "st": st, "answers": {}}
         has_group = any(x is not None for x in (sb["src_members"], sb["dst_members"], st["src_members"], st["dst_members"]))
-        hist = rnd.choice([0, 0, 1, 2, 3]) if has_group else 0
+        has_ports = any(x.get(k) is not None for x in (bottom, top) for k in ("sport", "dport"))
+        hist = rnd.choice([0, 0, 1, 2, 3]) if has_group else (4 if has_ports and rnd.random() < 0.5 else 0)
         for si, skip in enumerate(SKIPS):
             def f(skip=skip, hist=hist):
                 b = acegen.build_impl(ca, plat, sb, history=hist)
